@@ -103,7 +103,12 @@ func (f *Formatter) Format(vcl *ast.VCL) io.Reader {
 		if i > 0 {
 			buf.WriteString("\n")
 		}
-		buf.WriteString(decl.Leading)
+		leading := decl.Leading
+		if i == 0 {
+			// neither with the empty line in front of a leading comment
+			leading = strings.TrimLeft(leading, "\n")
+		}
+		buf.WriteString(leading)
 		// The file never starts with an empty line: a single leading line feed
 		// would not be an empty line for the parser on the next formatting
 		if decl.EmptyLine && (i > 0 || decl.Leading != "") {
